@@ -10,7 +10,9 @@ let run_sloop (id, lines) =
     match fs with
     | ["start"; s] -> start := z_of_string s
     | "exec" :: ci :: w :: resets ->
-        execs := { ex_resets = List.map z_of_string resets; ex_work = z_of_string w; ex_can_improve = (ci = "1") } :: !execs
+        (* "b<score>": the operator resets to the solver's best solution, whose score the generator has worked out *)
+        let zr x = if String.length x > 0 && x.[0] = 'b' then z_of_string (String.sub x 1 (String.length x - 1)) else z_of_string x in
+        execs := { ex_resets = List.map zr resets; ex_work = z_of_string w; ex_can_improve = (ci = "1") } :: !execs
     | _ -> ()) lines;
   let st = srun !start (List.rev !execs) in
   Printf.printf "%s sent %s\n" id (String.concat " " (List.map string_of_z (List.rev st.s_sent)));
